@@ -19,12 +19,13 @@ type Obj interface {
 	Get(string) (string, error)
 	Set(string, string) error
 	Vector() string
-	Scores() []float64     // v2/v3: base, temporal, environmental; v4: score
-	SubScores() []float64  // v2/v3: impact, exploitability; v4: none
-	Clone() Obj            // independent copy (value copy)
-	Eq(Obj) bool           // == on the value types
-	State() string         // printable packed state, for hashing / messages
-	Nomenclature() string  // v4 only, "" otherwise
+	Scores() []float64    // v2/v3: base, temporal, environmental; v4: score
+	SubScores() []float64 // v2/v3: impact, exploitability; v4: none
+	Clone() Obj           // independent copy (value copy)
+	Eq(Obj) bool          // == on the value types
+	State() string        // printable packed state, for hashing / messages
+	Nomenclature() string // v4 only, "" otherwise
+	Same(Obj) bool        // pointer identity
 }
 
 var ScoreNames = map[string][]string{
@@ -77,6 +78,10 @@ func (o O20) State() string        { return fmt.Sprintf("%v", *o.P) }
 func (o O30) State() string        { return fmt.Sprintf("%v", *o.P) }
 func (o O31) State() string        { return fmt.Sprintf("%v", *o.P) }
 func (o O40) State() string        { return fmt.Sprintf("%v", *o.P) }
+func (o O20) Same(p Obj) bool      { return o.P == p.(O20).P }
+func (o O30) Same(p Obj) bool      { return o.P == p.(O30).P }
+func (o O31) Same(p Obj) bool      { return o.P == p.(O31).P }
+func (o O40) Same(p Obj) bool      { return o.P == p.(O40).P }
 func (o O20) Nomenclature() string { return "" }
 func (o O30) Nomenclature() string { return "" }
 func (o O31) Nomenclature() string { return "" }
